@@ -422,6 +422,7 @@ class Parked:
         self.arrived.release()
         if not self.release.wait(30):
             raise TimeoutError('gate not released')
+        self.release.clear()          # every gate() of a hit parks, not only the first
         self.parked = False
         return 'g%d' % self.idx
 
